@@ -9,7 +9,7 @@
    operations, operations on removed agents and arbitrary recorded random outcomes. *)
 From Coq Require Import ZArith List Bool.
 From Coq Require Import Permutation.
-From Mesa Require Import Common.ListX Generated.Tables Model.CellSpace Proofs.CellSpaceProofs Proofs.CellSpaceRefine.
+From Mesa Require Import Common.ListX Generated.Tables Model.CellSpace Proofs.CellSpaceProofs Proofs.CellSpaceRefine Proofs.CellSpaceBridge.
 Import ListNotations.
 Open Scope Z_scope.
 
@@ -221,6 +221,115 @@ Theorem C06_refines_counting_spec : forall e ops, caps_ok e ->
 Proof. exact refines_spec. Qed.
 Print Assumptions C06_refines_counting_spec.
 
+(* ---- code-level T1: the methods themselves, TRANSLATED from the working tree on every run
+   (harness/tables/cellspace_code.py -> Generated.Tables, the gen_ definitions), are the functions of the model ... *)
+Theorem C06_source_is_empty : forall s c, is_empty s c = gen_is_empty s c.
+Proof. exact is_empty_bridge. Qed.
+Print Assumptions C06_source_is_empty.
+
+Theorem C06_source_is_full : forall e s c, is_full e s c = gen_is_full e s c.
+Proof. exact is_full_bridge. Qed.
+Print Assumptions C06_source_is_full.
+
+Theorem C06_source_add_agent : forall e s c a, add_agent e s c a = gen_add_agent e s c a.
+Proof. exact add_agent_bridge. Qed.
+Print Assumptions C06_source_add_agent.
+
+Theorem C06_source_remove_agent : forall e s c a, remove_agent s c a = gen_remove_agent e s c a.
+Proof. exact remove_agent_bridge. Qed.
+Print Assumptions C06_source_remove_agent.
+
+Theorem C06_source_cell_setter : forall e s a tgt, set_cell e s a tgt = to_res (gen_cell_setter e s a tgt).
+Proof. exact set_cell_bridge. Qed.
+Print Assumptions C06_source_cell_setter.
+
+Theorem C06_source_fixed_setter : forall e s a tgt, fixed_set e s a tgt = to_res (gen_fixed_setter e s a tgt).
+Proof. exact fixed_set_bridge. Qed.
+Print Assumptions C06_source_fixed_setter.
+
+Theorem C06_source_move_to : forall e s a c, set_cell e s a (Some c) = to_res (gen_move_to e s a (Some c)).
+Proof. exact move_to_bridge. Qed.
+Print Assumptions C06_source_move_to.
+
+Theorem C06_source_move_relative : forall e s a d, move_relative e s a d = to_res (gen_move_relative e s a d).
+Proof. exact move_relative_bridge. Qed.
+Print Assumptions C06_source_move_relative.
+
+Theorem C06_source_move2d : forall e s a name k, move2d e s a name k = to_res (gen_move2d e s a name k).
+Proof. exact move2d_bridge. Qed.
+Print Assumptions C06_source_move2d.
+
+Theorem C06_source_remove : forall e s a, remove e s a = to_res (gen_remove e s a).
+Proof. exact remove_bridge. Qed.
+Print Assumptions C06_source_remove.
+
+Theorem C06_source_empties : forall e s, empties e s = gen_empties e s.
+Proof. exact empties_bridge. Qed.
+Print Assumptions C06_source_empties.
+
+Theorem C06_source_random_empty : forall e s tr out, random_empty e s tr out = gen_random_empty e s tr out.
+Proof. exact random_empty_bridge. Qed.
+Print Assumptions C06_source_random_empty.
+
+(* the statements that cannot be translated (property getters `return self._mesa_cell` and the class bases the
+   dispatch relies on; the random draws and `while True` around the translated acceptance test) are verbatim *)
+Theorem C06_source_skeletons : gen_cell_getters_ok = true /\ gen_random_empty_skeleton_ok = true.
+Proof. split; reflexivity. Qed.
+Print Assumptions C06_source_skeletons.
+
+(* ... hence one step of the model is one step over the translated methods *)
+Theorem C06_source_step : forall e s o, step e s o = gen_step e s o.
+Proof. exact step_bridge. Qed.
+Print Assumptions C06_source_step.
+
+(* ---- and the headline theorems hold of the translated source code: gen_exec runs a history with the methods as
+   they are in the working tree *)
+Theorem C06_mirror_of_source : forall e ops, caps_ok e ->
+  let s := gen_exec e init ops in
+  forall a c, reg s a = true \/ e_kind e a <> KFixed -> (ptr s a = Some c <-> In a (content s c)).
+Proof. exact mirror_of_source. Qed.
+Print Assumptions C06_mirror_of_source.
+
+Theorem C06_capacity_of_source : forall e ops, caps_ok e ->
+  forall c k, e_cap e c = Some k -> 0 < k -> zlen (content (gen_exec e init ops) c) <= k.
+Proof. exact capacity_of_source. Qed.
+Print Assumptions C06_capacity_of_source.
+
+Theorem C06_views_agree_of_source : forall e ops, caps_ok e ->
+  let s := gen_exec e init ops in
+  (forall c, flag s c = gen_is_empty s c) /\
+  (forall c, gen_is_empty s c = true <-> content s c = []) /\
+  (forall c, gen_is_full e s c = true <-> e_cap e c = Some (zlen (content s c))) /\
+  (forall c, In c (gen_empties e s) <-> In c (cells_dom e) /\ content s c = []).
+Proof. exact views_of_source. Qed.
+Print Assumptions C06_views_agree_of_source.
+
+Theorem C06_random_empty_of_source : forall e ops tr out c r, caps_ok e ->
+  let s := gen_exec e init ops in
+  gen_random_empty e s tr out = (Some c, r) ->
+  content s c = [] /\ flag s c = true /\ In c (gen_empties e s) /\
+  (forall a, reg s a = true \/ e_kind e a <> KFixed -> ptr s a <> Some c).
+Proof. exact random_empty_of_source. Qed.
+Print Assumptions C06_random_empty_of_source.
+
+Theorem C18_cellspace_atomic_of_source : forall e ops o s' k, caps_ok e ->
+  gen_step e (gen_exec e init ops) o = (s', Err k) ->
+  view e s' = view e (gen_exec e init ops) /\ eqv (gen_exec e init ops) s'.
+Proof. exact atomic_of_source. Qed.
+Print Assumptions C18_cellspace_atomic_of_source.
+
+(* the translated cell setter itself raises only "full", and then nothing has changed *)
+Theorem C18_cellspace_source_setter_atomic : forall e s a tgt s' k,
+  caps_ok e -> Inv e s -> e_kind e a <> KFixed ->
+  gen_cell_setter e s a tgt = (s', Some k) -> eqv s s' /\ k = E_FULL.
+Proof. exact source_setter_atomic. Qed.
+Print Assumptions C18_cellspace_source_setter_atomic.
+
+Theorem C18_cellspace_source_fixed_setter_atomic : forall e s a tgt s' k,
+  caps_ok e -> Inv e s -> gen_fixed_setter e s a tgt = (s', Some k) -> eqv s s'.
+Proof. exact source_fixed_setter_atomic. Qed.
+Print Assumptions C18_cellspace_source_fixed_setter_atomic.
+
 (* ---- non-vacuity: one concrete space (2x2 von Neumann grid without torus, capacity 1; agents: CellAgent 1, 2,
    FixedAgent 3, Grid2DMovingAgent 4) on which the hypotheses hold and every rejecting site really rejects *)
 Definition ex_case (ops : list op) : case :=
@@ -317,4 +426,11 @@ Example C06_example_run_case :
   case_ok (ex_case (ex_ops ++ [SetCell 1 (Some 1)])) = true /\
   length (run_case (ex_case (ex_ops ++ [SetCell 1 (Some 1)]))) = 4%nat /\
   firstn 2 (nth 3 (run_case (ex_case (ex_ops ++ [SetCell 1 (Some 1)]))) []) = [-1; E_FULL].
+Proof. vm_compute. repeat split; reflexivity. Qed.
+
+Example C06_example_source :
+  gen_cell_setter ex_env (gen_exec ex_env init ex_ops) 1 (Some 1) = (set_flag (gen_exec ex_env init ex_ops) 1 false, Some E_FULL) /\
+  snd (gen_step ex_env (gen_exec ex_env init ex_ops) (Move2D 4 [78; 111; 114; 116; 104] 3)) = Err E_NODIR /\
+  gen_empties ex_env (gen_exec ex_env init ex_ops) = [3] /\
+  gen_is_full ex_env (gen_exec ex_env init ex_ops) 0 = true.
 Proof. vm_compute. repeat split; reflexivity. Qed.
